@@ -6,5 +6,6 @@ set -e
 export GOFLAGS=-mod=mod GOPROXY=off GOSUMDB=off GOTOOLCHAIN=local
 cd /tmp/wt-wit
 if ! go build ./... ; then echo "DOES NOT BUILD"; git checkout -- . ; exit 1; fi
+if git diff --quiet; then echo "EMPTY DIFF - no witness written"; exit 1; fi
 git diff | /verif/bin/mkwitness.sh "$@"
 git checkout -- . && git clean -fdq
